@@ -217,6 +217,8 @@ fn summarize(stmt: &Statement) -> ItemSummary {
             ..
         } => {
             names.push(function_name.to_string());
+            // a function may call itself: that is not a dependency on another definition
+            w.bound.push(function_name.to_string());
             for (_, tp, _) in type_parameters {
                 type_params.push(tp.to_string());
                 w.tbound.push(tp.to_string());
